@@ -1,7 +1,7 @@
 SPECIFICATION MCSpec
 CONSTANTS
   Names <- MC_Names
-  PoolOrder <- MC_Pool9
+  PoolOrder <- MC_Pool9b
   MaxLen = 3
   MaxNames = 9
   MaxRagged = 3
